@@ -215,6 +215,16 @@ Section Corner.
     unfold corner_keepb, corner_selectb. destruct (has_nb (length pts) k); intuition congruence.
   Qed.
 
+  (* Tier S: the per-call rule, as the boolean predicate that judges each call of a multi-call sequence *)
+  Theorem corner_call_rules : forall ks,
+    filter_rule_holdsb pts ks t (filter_corner pts ks t) = true /\
+    select_rule_holdsb pts ks t (select_corner pts ks t) = true.
+  Proof.
+    intros ks. unfold filter_rule_holdsb, select_rule_holdsb, filter_corner, select_corner.
+    rewrite !sublistb_filter. cbn [andb].
+    split; apply forallb_forall; intros k Hk; rewrite memb_filter, (memb_In k ks Hk); cbn [andb]; apply eqb_reflx.
+  Qed.
+
   (* Tier S: idempotent, because the decision depends on the knee and the curve only, never on the other knees *)
   Theorem corner_idempotent : forall ks,
     filter_corner pts (filter_corner pts ks t) t = filter_corner pts ks t /\
